@@ -1,0 +1,42 @@
+//go:build verif
+// +build verif
+
+package backend
+
+import (
+	"sync/atomic"
+	"time"
+)
+
+// Injectable clock for conformance harnesses (build tag `verif` only).
+//
+// VerifSetClock installs a function that replaces time.Now for the fuse, recovery and
+// health-check code (timeNow call sites); VerifSetClock(nil) restores the wall clock.
+// VerifSetTicker does the same for the tickers of the periodic health-check loops.
+// With nothing installed the behaviour is identical to the normal build.
+
+type verifClockFn func() time.Time
+type verifTickerFn func(d time.Duration) *time.Ticker
+
+var (
+	verifClock  atomic.Value // verifClockFn
+	verifTicker atomic.Value // verifTickerFn
+)
+
+func VerifSetClock(f func() time.Time) { verifClock.Store(verifClockFn(f)) }
+
+func VerifSetTicker(f func(d time.Duration) *time.Ticker) { verifTicker.Store(verifTickerFn(f)) }
+
+func timeNow() time.Time {
+	if f, _ := verifClock.Load().(verifClockFn); f != nil {
+		return f()
+	}
+	return time.Now()
+}
+
+func newTicker(d time.Duration) *time.Ticker {
+	if f, _ := verifTicker.Load().(verifTickerFn); f != nil {
+		return f(d)
+	}
+	return time.NewTicker(d)
+}
